@@ -44,6 +44,32 @@ def rand_topo(rng, g):
     return order
 
 
+def anc_in(g, T, C):
+    """Ancestors of C (inclusive) in the subgraph induced by T."""
+    T, out, todo = set(T), set(C), list(C)
+    while todo:
+        x = todo.pop()
+        for a, b in g["dir"]:
+            if b == x and a in T and a not in out:
+                out.add(a); todo.append(a)
+    return out
+
+
+def swapped_topo(rng, g, topo, prefer=()):
+    """Another valid order: swap one adjacent pair the graph does not order, preferably both inside `prefer`
+    (falls back to a fresh random order)."""
+    edges = {tuple(e) for e in g["dir"]}
+    idx = [i for i in range(len(topo) - 1) if (topo[i], topo[i + 1]) not in edges]
+    pref = [i for i in idx if topo[i] in prefer and topo[i + 1] in prefer]
+    idx = pref or idx
+    if not idx:
+        return rand_topo(rng, g)
+    i = rng.choice(idx)
+    out = list(topo)
+    out[i], out[i + 1] = out[i + 1], out[i]
+    return out
+
+
 def q_truth_violation(g, C, expr, what):
     """expr must equal Q[C](v) = P(c | do(v minus c)) for every assignment, on a random positive SCM."""
     scm = SCM.SCM(g, 0)
@@ -69,7 +95,7 @@ class C17(PropBase):
     coq_imports = "Graph.MixedGraph Dsl.Syntax Dsl.Build Alg.Id Alg.Tian Corr.Tian"
     budgets = {"quick": 400, "thorough": 4000}
     per_file = 100
-    rule = ("random ADMGs with 2..6 nodes, a random valid topological order, every district T with Q[T] computed by compute_c_factor from P(V) "
+    rule = ("random ADMGs with 2..6 nodes, two random valid topological orders (the routines are called once per order in the same process), every district T with Q[T] computed by compute_c_factor from P(V) "
             "(plain or population-tagged), a random C inside T whose induced subgraph is one district; non-trivial: the recursion takes at "
             "least one step (A differs from C) or fails; distinct by (graph, order, T, C, variant)")
     explanation = ("compute_c_factor and identify_district_variables compared with the Gallina model (parents of population-tagged atoms as sets); "
@@ -81,35 +107,68 @@ class C17(PropBase):
 
     def gen(self, rng, tier, n, shard, nshards):
         cases = []
+        if shard == 0:  # Lemma 4(ii) with two variables of A = An(C) that the graph does not order
+            cases.append({"g": {"nodes": [0, 1, 2, 3, 4], "dir": [[0, 1], [1, 3], [2, 3], [3, 4]], "bid": [[1, 3], [2, 4], [3, 4]]},
+                          "topo": [0, 1, 2, 3, 4], "topo2": [0, 2, 1, 3, 4], "T": [1, 2, 3, 4], "C": [1, 3], "pop": False})
         while len(cases) < n:
             g = GG.rand_admg(rng, 2, 6)
+            if rng.random() < 0.4:  # large districts, sparse directed part: Lemma 4 with incomparable variables inside An(C)
+                g = GG.rand_admg(rng, 4, 6)
+                extra = [[a, b] for a in g["nodes"] for b in g["nodes"] if a < b and [a, b] not in g["bid"] and [b, a] not in g["bid"] and rng.random() < 0.4]
+                g["bid"] += extra
+                g["dir"] = [e for e in g["dir"] if rng.random() < 0.7]
             topo = rand_topo(rng, g)
             for T in districts(g, g["nodes"]):
                 k = rng.randint(1, len(T))
-                for _ in range(6):
-                    C = sorted(rng.sample(T, k))
-                    if len(districts(g, C)) == 1:
+                C, fallback = None, T[:1]
+                for _ in range(12):
+                    cand = sorted(rng.sample(T, rng.randint(1, len(T)) if C is None else k))
+                    if len(districts(g, cand)) != 1:
+                        continue
+                    fallback = cand
+                    A = anc_in(g, T, cand)
+                    if len(cand) < len(A) < len(T) or rng.random() < 0.15:   # prefer the Lemma-4 branch: C < An(C) < T
+                        C = cand
                         break
-                else:
-                    C = T[:1]
-                cases.append({"g": g, "topo": topo, "T": T, "C": C, "pop": rng.random() < 0.25})
+                C = C or fallback
+                cases.append({"g": g, "topo": topo, "topo2": swapped_topo(rng, g, topo, anc_in(g, T, C)), "T": T, "C": C, "pop": rng.random() < 0.25})
         return cases
 
     def run(self, case):
+        """The same (graph, T, C) is identified twice in this process, under two valid topological orders: a result may not depend on
+        what was computed before (module-level state)."""
+        r1 = self.run_order(case, case["topo"])
+        if case.get("topo2") in (None, case["topo"]) or "terms" not in r1:
+            return r1
+        r2 = self.run_order(case, case["topo2"], qT_from=case["topo"])
+        if "terms" not in r2:
+            return r2
+        r1["terms"] += r2["terms"]
+        if r2["violation"] and not r1["violation"]:
+            r1["violation"], r1["key"] = "second call, order %s: %s" % (case["topo2"], r2["violation"]), r2["key"]
+        r1["features"].append("two-orders")
+        return r1
+
+    def run_order(self, case, topo, qT_from=None):
         from y0.algorithm.tian_id import compute_c_factor, identify_district_variables
         from y0.dsl import PP, P, Variable
-        g, topo, T, C = case["g"], case["topo"], case["T"], case["C"]
+        g, T, C = case["g"], case["T"], case["C"]
         gr = GG.to_y0(g)
         tv = [GG.V(v) for v in topo]
         joint = PP[Variable("pi1")](*tv) if case["pop"] else P(*tv)
         violation, key = None, "C17/ok"
+        # the second call re-uses Q[T] as computed under the first order (any valid order may be used for the recursion itself)
+        tq = tv if qT_from is None else [GG.V(v) for v in qT_from]
+        topo_q = topo if qT_from is None else qT_from
+        if qT_from is not None:
+            joint = PP[Variable("pi1")](*tq) if case["pop"] else P(*tq)
         try:
-            qT = compute_c_factor(district=[GG.V(v) for v in T], subgraph_variables=set(tv), subgraph_probability=joint, graph_topo=tv)
+            qT = compute_c_factor(district=[GG.V(v) for v in T], subgraph_variables=set(tq), subgraph_probability=joint, graph_topo=tq)
         except Exception as ex:  # noqa: BLE001
             return {"out": f"c-factor raised {type(ex).__name__}", "violation": f"compute_c_factor raised {type(ex).__name__}", "nontrivial": True,
                     "features": ["cfactor-exception"], "term": "CCFactor [] [] EOne [] (EErr 3)", "key": "C17/crash"}
         t1 = (f"CCFactor {c_list([OFF + v for v in T])} {c_list([OFF + v for v in g['nodes']])} {GE.c_expr(joint)} "
-              f"{c_list([OFF + v for v in topo])} {GE.c_expr(qT)}")
+              f"{c_list([OFF + v for v in topo_q])} {GE.c_expr(qT)}")
         try:
             res = identify_district_variables(input_variables=frozenset(GG.V(v) for v in C), input_district=frozenset(GG.V(v) for v in T),
                                               district_probability=qT, graph=gr, topo=tv)
